@@ -43,7 +43,9 @@ def frames():
     nulls.loc[1, "a"] = np.nan
     nulls.loc[4, "A"] = None
     nulls.loc[5, "b"] = np.nan
-    return {"clean": clean, "nulls": nulls}
+    shuffled = nulls.copy()
+    shuffled.index = [4, 2, 5, 0, 1, 3]
+    return {"clean": clean, "nulls": nulls, "nulls-shuffled-index": shuffled}
 
 
 def to_arrow(df):
@@ -98,7 +100,7 @@ def drv(c, ctx, col):
     entry = c.pick(ENTRIES)
     mat = c.pick(MATS)
     df = ctx["frame_objs"][fname]
-    if fname == "nulls" and na_action == "ignore" and any(t in formula for t in ("poly(", "bs(", "center(", "scale(")):
+    if fname.startswith("nulls") and na_action == "ignore" and any(t in formula for t in ("poly(", "bs(", "center(", "scale(")):
         raise Skip()  # stateful numeric transforms on data with unhandled nulls: behaviour not specified
     key = "%r frame=%s na_action=%s output=%s entry=%s materializer=%s" % (formula, fname, na_action, output, entry, mat)
     detail = {"formula": formula, "frame": fname, "na_action": na_action, "output": output, "entry": entry, "materializer": mat}
@@ -129,7 +131,7 @@ def drv(c, ctx, col):
             return
         if B.shape != G.shape or not np.allclose(B, G, rtol=1e-12, atol=1e-12, equal_nan=True):
             col.violation(key, dict(detail, part=j, got=G.tolist(), baseline=B.tolist()),
-                          sig="values-differ:%s:%s:%s" % (mat, output, "nulls" if fname == "nulls" else "clean"))
+                          sig="values-differ:%s:%s:%s" % (mat, output, "nulls" if fname.startswith("nulls") else "clean"))
             return
     col.sample(detail)
 
@@ -138,5 +140,5 @@ def subchecks(tier, seed):
     fr = frames()
     quick = tier == "quick"
     fs = FORMULAS if not quick else FORMULAS[::2] + [FORMULAS[(2 * seed + 1) % len(FORMULAS)]]
-    return [Sub("variants", drv, {"formulas": fs, "frames": ["clean", "nulls"], "frame_objs": fr}, shard_depth=3,
+    return [Sub("variants", drv, {"formulas": fs, "frames": ["clean", "nulls"] if quick else ["clean", "nulls", "nulls-shuffled-index"], "frame_objs": fr}, shard_depth=3,
                 bounds={"formulas": fs, "frames": ["clean (6 rows)", "nulls (3 null cells)"], "variants_per_pair": 90})]
